@@ -849,13 +849,16 @@ class Glob(Generic[AnyStr]):
                     if this.dir_only:
                         # Glob these directories if they exists
                         for start, is_dir in results:
+                            # Followed by a separator, it must be a directory that is really there
+                            if not is_dir:
+                                continue
                             rest = pattern[1:]
                             if rest:
                                 this = rest.pop(0)
                                 for match, is_dir in self._glob(start, this, rest):
                                     if not self._is_excluded(match, is_dir):
                                         yield from self._format_path(match, is_dir, dir_only)
-                            elif not self._is_excluded(start, is_dir):
+                            elif self._lexists(start) and not self._is_excluded(start, is_dir):
                                 yield from self._format_path(start, is_dir, dir_only)
                     else:
                         # Return the file(s) and finish.
